@@ -4,7 +4,7 @@ from fractions import Fraction as F
 
 from hypothesis import strategies as st
 
-from geomdl import operations
+from geomdl import operations, helpers
 from geomdl.exceptions import GeomdlException
 
 from vp import gen, build, ref, shape
@@ -41,13 +41,18 @@ def _split_cases(draw, tier):
     pdim = len(d["degree"])
     return {"defn": d, "dir": draw(st.integers(0, pdim - 1)),
             "where": draw(st.one_of(gen.param_desc(), st.just(["start"]), st.just(["end"]))),
-            "read": draw(st.booleans())}
+            "read": draw(st.booleans()), "binsearch": draw(st.integers(0, 3)) == 0}
 
 
-def _split(obj, k, u):
+def _kw(case):
+    # the documented alternative span search of the split / decompose functions
+    return {"find_span_func": helpers.find_span_binsearch} if case.get("binsearch") else {}
+
+
+def _split(obj, k, u, **kw):
     if obj.pdimension == 1:
-        return operations.split_curve(obj, u)
-    return operations.split_surface_u(obj, u) if k == 0 else operations.split_surface_v(obj, u)
+        return operations.split_curve(obj, u, **kw)
+    return operations.split_surface_u(obj, u, **kw) if k == 0 else operations.split_surface_v(obj, u, **kw)
 
 
 def check_split(case, ctx):
@@ -76,7 +81,7 @@ def check_split(case, ctx):
         ctx.nt(True, "split-at-domain-end")
         raised = False
         try:
-            _split(obj, k, u)
+            _split(obj, k, u, **_kw(case))
         except GeomdlException:
             raised = True
         ctx.check(raised, "end-split-not-rejected", "splitting at the domain end %r (dir %d) was accepted" % (u, k))
@@ -87,7 +92,8 @@ def check_split(case, ctx):
     ctx.nt(s >= 2 or build.has_repeated_interior(d), "multiplicity>=2")
     ctx.nt(build.varied_weights(d), "rational-varied")
     ctx.nt(pdim == 2, "surface")
-    pieces = _split(obj, k, u)
+    ctx.label("binary-span-search", bool(case.get("binsearch")))
+    pieces = _split(obj, k, u, **_kw(case))
     ctx.check(len(pieces) == 2, "piece-count", "split returned %d pieces" % len(pieces))
     ctx.check(build.snapshot(obj) == before, "input-modified", "split modified its input")
     views_after = ([list(p) for p in obj.ctrlpts], list(obj.weights) if obj.rational else None)
@@ -107,7 +113,7 @@ def _decomp_cases(draw, tier):
     big = tier == "thorough"
     d = draw(gen.spline(kinds=("curve", "surface"), max_p=4 if big else 3, max_extra=5 if big else 4,
                         affine_range="maybe", normalize="maybe"))
-    return {"defn": d, "dir": draw(st.sampled_from(["u", "v", "uv"]))}
+    return {"defn": d, "dir": draw(st.sampled_from(["u", "v", "uv"])), "binsearch": draw(st.integers(0, 3)) == 0}
 
 
 def _intervals(p, kv, n):
@@ -129,12 +135,12 @@ def check_decompose(case, ctx):
     ctx.nt(build.varied_weights(d), "rational-varied")
     ctx.nt(pdim == 2, "surface")
     if pdim == 1:
-        pieces = operations.decompose_curve(obj)
+        pieces = operations.decompose_curve(obj, **_kw(case))
         boxes = [[iv] for iv in ivs[0]]
         dirs = "u"
     else:
         dirs = case["dir"]
-        pieces = operations.decompose_surface(obj, decompose_dir=dirs)
+        pieces = operations.decompose_surface(obj, decompose_dir=dirs, **_kw(case))
         dom = R.domain()
         if dirs == "u":
             boxes = [[iv, dom[1]] for iv in ivs[0]]
@@ -144,6 +150,7 @@ def check_decompose(case, ctx):
             boxes = [[iu, iv] for iu in ivs[0] for iv in ivs[1]]
     ctx.nt(len(boxes) >= 3, ">=3-pieces")
     ctx.label("dir:" + dirs)
+    ctx.label("binary-span-search", bool(case.get("binsearch")))
     ctx.check(build.snapshot(obj) == before, "input-modified", "decomposition modified its input")
     ctx.check(([list(p) for p in obj.ctrlpts], list(obj.weights) if obj.rational else None) == views_before, "input-modified",
               "after the decomposition the input reports other control points / weights")
